@@ -60,6 +60,7 @@ def schema_xsd(s) -> str:
         '<xs:simpleType name="Color"><xs:restriction base="xs:string"><xs:enumeration value="red"/><xs:enumeration value="dark blue"/></xs:restriction></xs:simpleType>'
         '<xs:simpleType name="Ints"><xs:list itemType="xs:int"/></xs:simpleType>'
         '<xs:simpleType name="IntOrStr"><xs:union memberTypes="xs:int xs:string"/></xs:simpleType>'
+        f'<xs:simpleType name="ColorOrInt"><xs:union memberTypes="{_t("Color", tns)} xs:int"/></xs:simpleType>'
         '<xs:complexType name="Kid"><xs:sequence><xs:element name="x" type="xs:int"/><xs:element name="y" type="xs:string" minOccurs="0"/></xs:sequence></xs:complexType>'
         '<xs:element name="g" type="xs:string"/>'
     )
@@ -146,7 +147,7 @@ def vs(tp: str, text: str):
             return ("dec", Decimal(t))
         if tp in ("Ints", "IntsAnon"):
             return ("ints", tuple(int(x) for x in t.split()))
-        if tp == "IntOrStr":
+        if tp in ("IntOrStr", "ColorOrInt"):
             try:
                 return ("u", int(t))
             except ValueError:
